@@ -208,9 +208,9 @@ func (f *fuzzCtx) request() (Req, string) {
 		case 3:
 			hdr = append(hdr, [2]string{"Content-Length", f.pick("0", "5", "-1", "abc", "", "1048576", " 3", "3 ")})
 		case 4:
-			hdr = append(hdr, [2]string{"If-None-Match", f.pick("*", "\"x\"", "")})
+			hdr = append(hdr, [2]string{f.pick("If-None-Match", "If-None-Match", "If-Match", "If-Range"), f.pick("*", "\"x\"", "", "W/", "W/\"x\"", "W", "\"", "\"\"", ",", "W/*", "W/\"", "w/\"x\"", "\"5d41402abc4b2a76b9719d911017c592\"", "W/\"5d41402abc4b2a76b9719d911017c592\", \"y\"", " ", "W/ ")})
 		case 5:
-			hdr = append(hdr, [2]string{"If-Modified-Since", f.pick("Mon, 02 Jan 2006 15:04:05 GMT", "yesterday", "")})
+			hdr = append(hdr, [2]string{f.pick("If-Modified-Since", "If-Unmodified-Since"), f.pick("Mon, 02 Jan 2006 15:04:05 GMT", "yesterday", "", "Thu, 02 Jan 2020 03:04:05 GMT", "Thu, 02 Jan 2020 03:04:06 GMT", "Monday, 02-Jan-06 15:04:05 GMT", "0", "Thu, 32 Jan 2020 03:04:05 GMT")})
 		case 6:
 			hdr = append(hdr, [2]string{"x-minio-force-delete", f.pick("true", "false", "")})
 		case 7:
@@ -458,6 +458,18 @@ func runC09(tier string, seed uint64) {
 			for n := 0; n <= 5; n++ {
 				for _, extra := range []string{"", "&prefix=m", "&delimiter=%2F", "&prefix=m&delimiter=%2F", "&key-marker=ma", "&key-marker=mp", "&prefix=mz%2F"} {
 					corpus = append(corpus, Req{Method: "GET", Path: "/" + singleBucketName + "?uploads&max-uploads=" + strconv.Itoa(n) + extra})
+				}
+			}
+			// conditional reads of an existing object: every spelling of an entity tag / date a client may send
+			for _, cv := range []string{"*", "\"x\"", "W/", "W/\"x\"", "W", "\"", "\"\"", ",", "W/*", "W/\"", " ", "W/ ", "\"5d41402abc4b2a76b9719d911017c592\"", "W/\"781e5e245d69b566979b86e28d23f2c7\"", "781e5e245d69b566979b86e28d23f2c7", "\"a\", W/", ",,", "W/W/"} {
+				for _, hn := range []string{"If-None-Match", "If-Match"} {
+					corpus = append(corpus, Req{Method: "GET", Path: "/" + singleBucketName + "/d/e", Header: [][2]string{{hn, cv}}},
+						Req{Method: "HEAD", Path: "/" + singleBucketName + "/d/e", Header: [][2]string{{hn, cv}}})
+				}
+			}
+			for _, dv := range []string{"Thu, 02 Jan 2020 03:04:05 GMT", "Thu, 02 Jan 2020 03:04:04 GMT", "Thu, 02 Jan 2020 03:04:06 GMT", "yesterday", "0", "", "Thu, 32 Jan 2020 03:04:05 GMT", "Thursday, 02-Jan-20 03:04:05 GMT", "Thu Jan  2 03:04:05 2020"} {
+				for _, hn := range []string{"If-Modified-Since", "If-Unmodified-Since"} {
+					corpus = append(corpus, Req{Method: "GET", Path: "/" + singleBucketName + "/d/e", Header: [][2]string{{hn, dv}}})
 				}
 			}
 			if kind != "mem" || cfg.o.NoVer {
